@@ -25,3 +25,4 @@ mod c13_deque;
 mod c13_vec;
 mod c99_tmp;
 mod c18_io;
+mod c11_close;
